@@ -336,6 +336,9 @@ func (rn *runner) submit(cd *cand, ms []mutation, mode int) {
 		reason := reasonOf(err)
 		r.Count("reason:"+reason, 1)
 		r.Add("rejection_reasons", reason)
+		if reason == constants.ErrVmRunPanic.Error() && len(ms) == 1 {
+			r.Add("vm_panic_single_mutations", cd.Type+":"+ms[0].String())
+		}
 		if d := rn.n.PoolDigest(); d != rn.dig {
 			// a rejected block must not alter the pool; not part of C03's statement, so only recorded
 			r.Count("rejected_but_pool_changed", 1)
@@ -346,6 +349,9 @@ func (rn *runner) submit(cd *cand, ms []mutation, mode int) {
 	if rn.n.PoolDigest() == rn.dig {
 		// nil error without insertion: stand-alone contract sends are skipped, known identifiers are deduplicated
 		r.Count("ignored_without_insertion", 1)
+		if len(ms) <= 1 {
+			r.Add("ignored_single_mutations", cd.Type+":"+mutsString(ms)+":"+modes[mode])
+		}
 		return
 	}
 	r.Count("accepted", 1)
@@ -360,8 +366,12 @@ func (rn *runner) submit(cd *cand, ms []mutation, mode int) {
 	v := rn.st.led.valid(judged, rn.enf, rn.st.expected, tolerance{})
 	if !v.ok {
 		key := rn.rootCause(judged, id, v)
-		r.Violate(key, fmt.Sprintf("state %s, %s regime: candidate %s (%s, %s) was accepted into the pool but the statement's predicate fails: %s",
-			rn.st.Name, regimeName(rn.enf), cd.Type, mutsString(ms), modes[mode], v.clause), id)
+		what := fmt.Sprintf("state %s, %s regime: candidate %s (%s, %s) was accepted into the pool but the statement's predicate fails: %s",
+			rn.st.Name, regimeName(rn.enf), cd.Type, mutsString(ms), modes[mode], v.clause)
+		if rc, ok := rootCauseText[key]; ok {
+			what = rc + " First instance found: " + what
+		}
+		r.Violate(key, what, id)
 		r.Count("accepted_invalid", 1)
 	} else {
 		r.Count("accepted_and_predicate_holds", 1)
@@ -416,6 +426,12 @@ const (
 	// RC3: legacy regime only — fromHash() never checks that the referenced block is a send block.
 	keyRC3 = "C03:user-receive:FromBlockHash=a-receive-block:resigned-by-owner:accepted[legacy-regime]"
 )
+
+var rootCauseText = map[string]string{
+	keyRC1: "ROOT CAUSE: the receiver never recomputes the hash of a descendant (contract-send) block: verifier.descendantBlocks runs only the stateless checks, vm.applyBlock compares the regenerated contract receive by Hash and ChangesHash only, and the parent's hash covers just the descendants' Hash fields. Any hashed field of a descendant (ToAddress, Amount, TokenStandard, Data, Address, FusedPlasma, Nonce, nested descendants) can be altered while its Hash is left untouched; the altered block is stored, deduplicates the honest one, gets confirmed and feeds the recipient's mailbox.",
+	keyRC2: "ROOT CAUSE: fields outside the hash of a contract block (BasePlasma, TotalPlasma; ChangesHash, PublicKey, Signature of descendants) are neither compared with the regenerated block nor cleared, so a contract block that is not the one the receiver reproduces (and a contract send carrying a key) is accepted and stored as sent.",
+	keyRC3: "ROOT CAUSE (legacy regime only): accountBlockVerifier.fromHash never checks that the referenced block is a send block; below ReceiverMismatchEnforcementHeight a receive block may 'receive' a receive block.",
+}
 
 // rootCause maps an accepted-but-invalid candidate to its violation key: the single key of a confirmed root cause if the
 // candidate violates nothing but that root cause's clauses, otherwise the specific field/value/mode key.
@@ -571,6 +587,18 @@ func init() {
 				}
 			}
 			sort.Strings(never)
+			var vp []string
+			for k := range m.Sets["vm_panic_single_mutations"] {
+				vp = append(vp, k)
+			}
+			sort.Strings(vp)
+			ev.Coverage["recovered_vm_panics_single_mutations"] = vp
+			var ig []string
+			for k := range m.Sets["ignored_single_mutations"] {
+				ig = append(ig, k)
+			}
+			sort.Strings(ig)
+			ev.Coverage["nil_error_without_insertion_single_mutations"] = ig
 			ev.Coverage["verifier_reasons_total"] = len(reasonTable)
 			ev.Coverage["verifier_reasons_never_hit"] = never
 			if m.Incomplete || m.Counters["replay_mode"] > 0 {
